@@ -5,6 +5,7 @@
 import decimal
 import html
 import math
+import os
 import re
 import urllib.parse
 from collections.abc import Callable, Sequence
@@ -1804,7 +1805,9 @@ def rel2abs_fn(
     ):
         base_path = Path("/")
     path = base_path / path
-    return str(path.resolve()).removeprefix("/")
+    # Normalize lexically: Path.resolve() would consult the host file system
+    # (symbolic links) and raises ValueError for an embedded null byte
+    return os.path.normpath(path).lstrip("/")
 
 
 def int_fn(
